@@ -1,0 +1,76 @@
+//go:build verif
+
+package tars
+
+// Verification hooks for the client call path (genRequestID, ServantProxy.doInvoke,
+// AdapterProxy.Recv). Compiled only with `-tags verif`; nothing here is referenced by the normal
+// build. Read-only accessors for the per-call bookkeeping (pending-reply tables, queueLen,
+// invokeNum) plus get/set of the process-wide request-id counter.
+
+import (
+	"sync/atomic"
+)
+
+// VerifCallCounters is a snapshot of the bookkeeping a call must leave as it found it.
+type VerifCallCounters struct {
+	QueueLen  int32 // ServantProxy.queueLen
+	InvokeNum int32 // endpointManager.invokeNum
+	Pending   int   // entries in the resp tables of all adapters of the proxy's manager
+	Adapters  int   // adapters created so far
+}
+
+// VerifCallState reads queueLen of s, invokeNum of its endpoint manager and the total size of the
+// pending-reply tables (AdapterProxy.resp) of the manager's adapters.
+func VerifCallState(s *ServantProxy) VerifCallCounters {
+	out := VerifCallCounters{QueueLen: atomic.LoadInt32(&s.queueLen)}
+	e, ok := s.manager.(*endpointManager)
+	if !ok || e == nil {
+		return out
+	}
+	out.InvokeNum = atomic.LoadInt32(&e.invokeNum)
+	e.epList.Range(func(_, v interface{}) bool {
+		adp, ok := v.(*AdapterProxy)
+		if !ok {
+			return true
+		}
+		out.Adapters++
+		adp.resp.Range(func(_, _ interface{}) bool {
+			out.Pending++
+			return true
+		})
+		return true
+	})
+	return out
+}
+
+// VerifPendingIDs returns the request ids currently registered in the resp tables of the
+// proxy's adapters (any order).
+func VerifPendingIDs(s *ServantProxy) []int32 {
+	var ids []int32
+	e, ok := s.manager.(*endpointManager)
+	if !ok || e == nil {
+		return ids
+	}
+	e.epList.Range(func(_, v interface{}) bool {
+		if adp, ok := v.(*AdapterProxy); ok {
+			adp.resp.Range(func(k, _ interface{}) bool {
+				if id, ok := k.(int32); ok {
+					ids = append(ids, id)
+				}
+				return true
+			})
+		}
+		return true
+	})
+	return ids
+}
+
+// VerifGetMsgID reads the process-wide request-id counter.
+func VerifGetMsgID() int32 { return atomic.LoadInt32(&msgID) }
+
+// VerifSetMsgID sets the process-wide request-id counter (to cross the wrap-around at MaxInt32
+// and the skipped value 0 without issuing 2^31 ids first).
+func VerifSetMsgID(v int32) { atomic.StoreInt32(&msgID, v) }
+
+// VerifGenRequestID runs ServantProxy.genRequestID once.
+func VerifGenRequestID(s *ServantProxy) int32 { return s.genRequestID() }
